@@ -8,6 +8,7 @@ from typing import TYPE_CHECKING, Any
 from hypergraph.nodes._rename import build_reverse_rename_map
 from hypergraph.nodes.base import _EMIT_SENTINEL
 from hypergraph.runners._shared.types import PauseExecution, PauseInfo
+from hypergraph.runners.async_.superstep import get_concurrency_limiter
 
 if TYPE_CHECKING:
     from hypergraph.nodes.interrupt import InterruptNode
@@ -42,12 +43,20 @@ class AsyncInterruptNodeExecutor:
             result = {o: state.values[o] for o in data_outputs}
             return _add_emit_sentinels(result, node)
 
-        # Handler path: invoke the function
+        # Handler path: invoke the function (a node function like any other:
+        # it holds a permit of the shared concurrency limiter while it runs)
+        semaphore = get_concurrency_limiter()
         try:
             params = node.map_inputs_to_params(input_values)
-            response = node.func(**params)
-            if isawaitable(response):
-                response = await response
+            if semaphore:
+                async with semaphore:
+                    response = node.func(**params)
+                    if isawaitable(response):
+                        response = await response
+            else:
+                response = node.func(**params)
+                if isawaitable(response):
+                    response = await response
         except Exception as e:
             raise RuntimeError(f"Handler for InterruptNode '{node.name}' failed: {type(e).__name__}: {e}") from e
 
